@@ -61,6 +61,17 @@ Theorem c20_sum_reduce : forall (A : Type) (op : A -> A -> A) (e : A),
 Proof. exact reduce_eq_serial. Qed.
 Print Assumptions c20_sum_reduce.
 
+(* ... also inside nested parallel regions and in serial runs, where nothing is shared and the
+   reduction is the identity: on every process the all-reduced value is the serial one *)
+Theorem c20_allreduce_any_level : forall (A : Type) (op : A -> A -> A) (e : A),
+  (forall x y z, op x (op y z) = op (op x y) z) -> (forall x, op e x = x) ->
+  forall (f : Z -> A) level size start stop rank, 1 <= size -> start <= stop ->
+  after_allreduce op e level size
+    (fun r => msum A op e (map f (api_block level FromStart size start stop (Z.of_nat r)))) rank
+  = msum A op e (map f (zrange start stop)).
+Proof. exact allreduce_eq_serial. Qed.
+Print Assumptions c20_allreduce_any_level.
+
 Theorem c20_list_and_array_helpers : forall size len, 1 <= size -> 0 <= len ->
   flat_map (fun r => list_block FromStart size len (Z.of_nat r)) (seq 0 (Z.to_nat size)) = zrange 0 len /\
   flat_map (fun r => array_block true FromStart size len (Z.of_nat r)) (seq 0 (Z.to_nat size)) = zrange 0 len.
